@@ -11,7 +11,7 @@
 (* (render mode: the admissible set is exactly {Ok(want)}).  Model-level failures are not    *)
 (* verdicts: the driver replays every vector into the real parser.                           *)
 EXTENDS Cli, CliShapes, Json
-CONSTANTS Mode, MaxLen, ShapeSel, Tier, MaxPerm
+CONSTANTS Mode, MaxLen, ShapeSel, Tier, GridTier, MaxPerm
 VARIABLES sh, in, want, stk, rem, res, ph, asg, arms
 vars == <<sh, in, want, stk, rem, res, ph, asg, arms>>
 
@@ -25,29 +25,33 @@ TE == <<>>                                    \* ""
 TX == <<120>>                                 \* x
 TOL == <<45,45,111,112,116,45,108,105,107,101>>   \* --opt-like
 TYZ == <<121,32,122>>                         \* "y z"
-IntToks == IF Tier = "quick" THEN {TM1, T255} ELSE {T0, TM1, TMAX, T255}
-StrToks == IF Tier = "quick" THEN {TE, TOL} ELSE {TE, TOL, TYZ}
+\* per value-domain tier; the grid shapes (index >= GridFrom) use the next smaller tier
+TierOf(s) == IF s >= GridFrom THEN GridTier ELSE Tier
+IntToks(t) == IF t = "mini" THEN {TM1} ELSE IF t = "quick" THEN {TM1, T255} ELSE {T0, TM1, TMAX, T255}
+StrToks(t) == IF t = "mini" THEN {TOL} ELSE IF t = "quick" THEN {TE, TOL} ELSE {TE, TOL, TYZ}
 RepMax == 2
 \* the value tokens field f may take in an assignment: those its type converts, and for a
 \* positional only tokens that do not start with '-' (whether those are values is a policy)
-Dom(f) ==
-    LET base == IF f.ty = "int" THEN {t \in IntToks : ParseInt(t, f.lo, f.hi).ok} ELSE StrToks
-    IN IF f.kind = "positional" THEN {t \in base : ~Dashed(t)} ELSE base
-FieldAsg(f) ==
+Dom(f, t) ==
+    LET base == IF f.ty = "int" THEN IntToks(t) ELSE StrToks(t)
+        all  == IF f.kind # "positional" THEN base
+                ELSE {x \in base \cup (IF f.ty = "int" THEN {T255} ELSE {TX}) : ~Dashed(x)}
+    IN IF f.ty = "int" THEN {x \in all : ParseInt(x, f.lo, f.hi).ok} ELSE all
+FieldAsg(f, t) ==
     IF f.kind = "flag" THEN {FALSE, TRUE}
-    ELSE IF f.pkg = "required" THEN {<<t>> : t \in Dom(f)}
-    ELSE IF f.pkg = "optional" THEN {<<>>} \cup {<<t>> : t \in Dom(f)}
-    ELSE UNION {[1..k -> Dom(f)] : k \in 0..RepMax}
+    ELSE IF f.pkg = "required" THEN {<<x>> : x \in Dom(f, t)}
+    ELSE IF f.pkg = "optional" THEN {<<>>} \cup {<<x>> : x \in Dom(f, t)}
+    ELSE UNION {[1..k -> Dom(f, t)] : k \in 0..RepMax}
 RECURSIVE Prod(_)
 Prod(ss) == IF ss = <<>> THEN {<<>>} ELSE {<<h>> \o t : h \in Head(ss), t \in Prod(Tail(ss))}
-RECURSIVE TokAsg(_)
-TokAsg(S) ==
-    LET fs == Prod([i \in 1..NF(S) |-> FieldAsg(S.fields[i])])
+RECURSIVE TokAsg(_, _)
+TokAsg(S, t) ==
+    LET fs == Prod([i \in 1..NF(S) |-> FieldAsg(S.fields[i], t)])
         scs == IF ~HasSub(S) THEN {<<>>}
                ELSE (IF SubOf(S).opt THEN {<<>>} ELSE {}) \cup
                     UNION {{<<[tag |-> k, v |-> iv]>> :
                               iv \in IF SubOf(S).tags[k].inner = <<>> THEN {NoVal}
-                                     ELSE TokAsg(SubOf(S).tags[k].inner[1])} :
+                                     ELSE TokAsg(SubOf(S).tags[k].inner[1], t)} :
                            k \in 1..Len(SubOf(S).tags)}
     IN {[f |-> f, sc |-> sc] : f \in fs, sc \in scs}
 
@@ -85,7 +89,7 @@ Init ==
         /\ sh = s /\ in = <<>> /\ want = <<>> /\ rem = <<>> /\ res = Running
         /\ stk = <<Frame0(Shapes[s], <<>>)>> /\ arms = {}
         /\ IF Mode = "lists" THEN ph = "build" /\ asg = <<>>
-           ELSE ph = "pick" /\ \E tv \in TokAsg(Shapes[s]) : asg = <<tv>>
+           ELSE ph = "pick" /\ \E tv \in TokAsg(Shapes[s], TierOf(s)) : asg = <<tv>>
 
 Pick ==
     /\ ph = "pick" /\ ph' = "run" /\ asg' = <<>>
